@@ -84,22 +84,27 @@ def check_state_after_call(ctx, R):
         if n:
             R.ob('STATE-AFTER-CALL', con, 'state', bad is None, detail, ctx.where(fn, fn.node.lineno),
                  fmt_path(bad) if bad else None, n)
-    # accumulate.state <- result of func / first element
+    # accumulate.state <- result of func / first element  (on symbolic normal forms, see folds.acc_paths)
+    from .folds import acc_paths
     acc = M.cls('streamz.core', 'accumulate')
-    fn = acc.methods['update']
+    fn = acc.find('update')
     bad, n = None, 0
-    for st, status in ctx.paths(fn, acc):
-        called = any(e.kind == 'UCALL' and e.a == 'func' for e in st.events)
-        for e in st.events:
-            if e.kind == 'ST' and e.a == 'state':
-                n += 1
-                if called and not (e.b and 'ucall:func' in e.b):
-                    bad = st.events
-                if not called and e.b != frozenset({'x'}):
-                    bad = st.events
+    for p in acc_paths(M, acc):
+        if p['state'] is None:
+            continue
+        n += 1
+        if p['fcall'] is not None:
+            k = p['fcall']
+            # the whole result, or its first component when the function returns (state, result)
+            if p['state'] not in ('C%d' % k, 'FIRST(C%d)' % k):
+                bad = bad or 'after calling the user function the state becomes %s, not (a component of) its result' % p['state'][:60]
+            if p['n_state_stores'] != 1:
+                bad = bad or 'the state is written %d times on a path that calls the user function' % p['n_state_stores']
+        elif p['state'] != 'x':
+            bad = bad or 'without a call of the user function the state becomes %s, not the first element' % p['state'][:60]
     R.ob('STATE-FROM-RESULT', ctx.construct(fn), 'state', bad is None and n > 0,
-         'accumulate.state is assigned a value that is neither the function\'s result nor the first element',
-         ctx.where(fn, fn.node.lineno), fmt_path(bad) if bad else None, n)
+         bad or 'accumulate.state is assigned a value that is neither the function\'s result nor the first element',
+         ctx.where(fn, fn.node.lineno), None, n)
 
 
 def check_no_swallowing_gather(ctx, R):
